@@ -5,7 +5,7 @@
    own parameter vector (`lkind`), its current parameters and its optimize flag.  Frozen layers (optimize = false) keep their
    parameters: the parameter vector of the concatenation skips them and the derivative has no block for them. *)
 From Coq Require Import List Arith Bool.
-From SharkV Require Import C04Model C04Conv C04Pool.
+From SharkV Require Import C04Model C04Conv C04Pool C04Misc.
 Import ListNotations.
 Set Implicit Arguments.
 
@@ -16,6 +16,7 @@ Record lkind := {
   k_np : nat;                                                            (* numberOfParameters() *)
   k_nin : nat; k_nout : nat;                                             (* inputShape / outputShape numElements *)
   k_hp : bool; k_hi : bool;                                              (* hasFirstParameterDerivative / hasFirstInputDerivative *)
+  k_get : list A -> list A;                                              (* parameterVector() after setParameterVector(p) *)
   k_eval : list A -> list (list A) -> list (list A);                     (* eval(batch, outputs, state) *)
   k_wpd : list A -> list (list A) -> list (list A) -> list A;            (* weightedParameterDerivative(inputs, .., coefficients, ..) *)
   k_wid : list A -> list (list A) -> list (list A) -> list (list A);     (* weightedInputDerivative *)
@@ -32,7 +33,7 @@ Definition h_skip (l : hlayer) : bool := negb (h_opt l) || (k_np (h_kind l) =? 0
 Fixpoint hnet_np (N : hnet) : nat :=
   match N with [] => 0 | l :: N' => (if h_opt l then k_np (h_kind l) else 0) + hnet_np N' end.
 Fixpoint hnet_params (N : hnet) : list A :=
-  match N with [] => [] | l :: N' => (if h_opt l then h_par l else []) ++ hnet_params N' end.
+  match N with [] => [] | l :: N' => (if h_opt l then k_get (h_kind l) (h_par l) else []) ++ hnet_params N' end.
 Fixpoint hnet_set (N : hnet) (t : list A) : hnet :=
   match N with
   | [] => []
@@ -101,40 +102,48 @@ Definition neu_eval1 (a : act A) (x : list A) : list A := aphi a x.
 Definition neu_wid (a : act A) (X C : list (list A)) : list (list A) := map2 (fun x c => amul a x (aphi a x) c) X C.
 
 Definition lin_kind (nin nout : nat) (off : bool) (a : act A) : lkind A :=
-  {| k_np := lin_nparams nin nout off; k_nin := nin; k_nout := nout; k_hp := true; k_hi := true;
+  {| k_np := lin_nparams nin nout off; k_nin := nin; k_nout := nout; k_hp := true; k_hi := true; k_get := fun p => p;
      k_eval := fun p X => lin_eval_batch zero add mul (lin_set nin nout off a p) X;
      k_wpd := fun p X C => lin_wpd zero add mul nin nout (lin_set nin nout off a p) X C;
      k_wid := fun p X C => lin_wid zero add mul nin (lin_set nin nout off a p) X C;
      k_wd := fun p X C => lin_wd zero add mul nin nout (lin_set nin nout off a p) X C |}.
 Definition neu_kind (n : nat) (a : act A) : lkind A :=
-  {| k_np := 0; k_nin := n; k_nout := n; k_hp := true; k_hi := true;
+  {| k_np := 0; k_nin := n; k_nout := n; k_hp := true; k_hi := true; k_get := fun p => p;
      k_eval := fun _ X => neu_eval a X;
      k_wpd := fun _ _ _ => [];
      k_wid := fun _ X C => neu_wid a X C;
      k_wd := fun _ X C => ([], neu_wid a X C) |}.
 Definition conv_kind (g : cgeo) (a : act A) : lkind A :=
-  {| k_np := conv_nparams g; k_nin := conv_nin g; k_nout := conv_nout g; k_hp := true; k_hi := true;
+  {| k_np := conv_nparams g; k_nin := conv_nin g; k_nout := conv_nout g; k_hp := true; k_hi := true; k_get := fun p => p;
      k_eval := fun p X => conv_eval_batch zero add mul (conv_set zero g a p) X;
      k_wpd := fun p X C => conv_wpd zero add mul (conv_set zero g a p) X C;
      k_wid := fun p X C => conv_wid zero add mul (conv_set zero g a p) X C;
      k_wd := fun p X C => conv_wd zero add mul (conv_set zero g a p) X C |}.
 Definition pool_kind (ltb : A -> A -> bool) (g : pgeo) : lkind A :=
-  {| k_np := 0; k_nin := pool_nin g; k_nout := pool_nout g; k_hp := true; k_hi := true;
+  {| k_np := 0; k_nin := pool_nin g; k_nout := pool_nout g; k_hp := true; k_hi := true; k_get := fun p => p;
      k_eval := fun _ X => pool_eval_batch zero ltb g X;
      k_wpd := fun _ _ _ => [];
      k_wid := fun _ X C => pool_wid zero add ltb g X C;
      k_wd := fun _ X C => ([], pool_wid zero add ltb g X C) |}.
 Definition resize_kind (rsub rdiv : A -> A -> A) (ropp : A -> A) (ofnat : nat -> A) (floorn : A -> nat) (g : rgeo) : lkind A :=
-  {| k_np := 0; k_nin := resize_nin g; k_nout := resize_nout g; k_hp := true; k_hi := true;
+  {| k_np := 0; k_nin := resize_nin g; k_nout := resize_nout g; k_hp := true; k_hi := true; k_get := fun p => p;
      k_eval := fun _ X => resize_eval_batch zero add mul rsub rdiv ropp ofnat floorn g X;
      k_wpd := fun _ _ _ => [];
      k_wid := fun _ _ C => resize_wid zero add mul rsub rdiv ropp ofnat floorn g C;
      k_wd := fun _ _ C => ([], resize_wid zero add mul rsub rdiv ropp ofnat floorn g C) |}.
 (* Normalizer: no derivatives *)
 Definition norm_kind (n : nat) (off : bool) : lkind A :=
-  {| k_np := n + (if off then n else 0); k_nin := n; k_nout := n; k_hp := false; k_hi := false;
+  {| k_np := n + (if off then n else 0); k_nin := n; k_nout := n; k_hp := false; k_hi := false; k_get := fun p => p;
      k_eval := fun p X => let '(dg, b) := norm_set n off p in norm_eval_batch add mul dg b X;
      k_wpd := fun _ _ _ => [];
      k_wid := fun _ _ C => C;
      k_wd := fun _ _ C => ([], C) |}.
+(* RBFLayer (parameter derivative only); m0 carries the structure, the training flags and the untrained part of the parameters *)
+Definition rbf_kind (sub : A -> A -> A) (opp : A -> A) (expA logA : A -> A) (ofnat : nat -> A) (half logPi : A) (m0 : rbf A) : lkind A :=
+  {| k_np := rbf_nparams m0; k_nin := r_nin m0; k_nout := r_nout m0; k_hp := true; k_hi := false;
+     k_get := fun p => rbf_params logA (rbf_set mul sub expA logA ofnat half logPi m0 p);
+     k_eval := fun p X => rbf_eval_batch zero add mul sub opp expA (rbf_set mul sub expA logA ofnat half logPi m0 p) X;
+     k_wpd := fun p X C => rbf_wpd zero add mul sub opp expA ofnat half (rbf_set mul sub expA logA ofnat half logPi m0 p) X C;
+     k_wid := fun _ _ C => C;
+     k_wd := fun p X C => (rbf_wpd zero add mul sub opp expA ofnat half (rbf_set mul sub expA logA ofnat half logPi m0 p) X C, C) |}.
 End Kinds.
